@@ -43,6 +43,9 @@ pub struct World {
     // ledger for the oracles
     pub trader_a: i128,
     pub trader_b: i128,
+    pub shadow: BTreeMap<u32, crate::hist_oracle::Shadow>,
+    pub last_trace: Vec<::whirlpool::manager::swap_manager::verif_trace::StepTrace>,
+    pub last_swap_report: (u64, u64, u64, u64),
 }
 
 fn anchor_err_name(e: anchor_lang::error::Error) -> String {
@@ -236,7 +239,13 @@ impl World {
         w.fee_growth_global_a = p128(t[6]);
         w.fee_growth_global_b = p128(t[7]);
         for i in 0..3 {
+            // a reward with a non-zero initial accumulator is an initialized one (an uninitialized
+            // reward never accrues, so its accumulator is 0 in every reachable state)
             w.reward_infos[i].growth_global_x64 = p128(t[8 + i]);
+            if p128(t[8 + i]) != 0 {
+                w.reward_infos[i].mint = anchor_lang::prelude::Pubkey::new_from_array([100 + i as u8; 32]);
+                w.reward_infos[i].vault = w.reward_infos[i].mint;
+            }
         }
         w.reward_last_updated_timestamp = p64(t[11]);
         let mut d = vec![];
@@ -254,6 +263,9 @@ impl World {
             key: anchor_lang::prelude::Pubkey::new_from_array([7u8; 32]),
             trader_a: 0,
             trader_b: 0,
+            shadow: BTreeMap::new(),
+            last_trace: vec![],
+            last_swap_report: (0, 0, 0, 0),
         }
     }
 
@@ -414,6 +426,7 @@ impl World {
         // copies of the arrays; commit on success
         let copies: Vec<ArrayAcc> =
             starts.iter().map(|s| ArrayAcc { data: RefCell::new(self.arrays[s].data.borrow().clone()), dynamic: self.arrays[s].dynamic }).collect();
+        let _ = ::whirlpool::manager::swap_manager::verif_trace::take();
         let update = {
             let mut it = copies.iter();
             let ta0 = World::anchor_view(it.next().ok_or("NoArrays")?);
@@ -422,6 +435,7 @@ impl World {
             let mut seq = SwapTickSequence::new(ta0, ta1, ta2);
             swap(&w, &mut seq, amount, limit, ein, dir, self.now, &self.af).map_err(anchor_err_name)?
         };
+        self.last_trace = ::whirlpool::manager::swap_manager::verif_trace::take();
         // token movement as in swap_utils::update_and_swap_whirlpool
         let (va, vb) = if dir {
             if (update.amount_b as u128) > self.vault_b {
@@ -460,6 +474,7 @@ impl World {
         for (s, c) in starts.iter().zip(copies.into_iter()) {
             *self.arrays.get(s).unwrap().data.borrow_mut() = c.data.into_inner();
         }
+        self.last_swap_report = (update.amount_a, update.amount_b, update.lp_fee, update.next_protocol_fee);
         let o = SwapOutcome { amount_a: update.amount_a, amount_b: update.amount_b, lp_fee: update.lp_fee, protocol_fee: update.next_protocol_fee };
         Ok((format!("{} {} {} {}", update.amount_a, update.amount_b, update.lp_fee, update.next_protocol_fee), o))
     }
@@ -555,7 +570,15 @@ impl Hist {
                 _ => 0,
             }
         };
-        let (fa, fb, r0, r1, r2) = (near(r), near(r), near(r), near(r), near(r));
+        let (fa, fb) = (near(r), near(r));
+        let k = r.below(4);
+        let mut rg = [0u128; 3];
+        for i in 0..3 {
+            if (i as u64) < k {
+                rg[i] = near(r) | 1;
+            }
+        }
+        let (r0, r1, r2) = (rg[0], rg[1], rg[2]);
         format!("H init {} {} {} {} {} {} {} {} {} {} {}", ts, fee, proto, price, fa, fb, r0, r1, r2, 1000 + r.below(1000), r.below(3))
     }
 
@@ -734,6 +757,7 @@ impl Family for Hist {
             Some(w) => w,
             None => return "bad-op".into(),
         };
+        let pre = crate::hist_oracle::snapshot(w);
         let res: Result<String, String> = std::panic::catch_unwind(std::panic::AssertUnwindSafe(|| match t[1] {
             "open" => {
                 let id: u32 = t[2].parse().unwrap();
@@ -784,7 +808,7 @@ impl Family for Hist {
         } else {
             ctx.nontrivial(&format!("{}{}", line, w.now));
         }
-        crate::hist_oracle::after_op(w, &t, &res, ctx);
+        crate::hist_oracle::after_op(w, &t, &res, &pre, ctx);
         match res {
             Ok(s) => format!("ok {}| {}", if s.is_empty() { String::new() } else { format!("{} ", s) }, w.digest()),
             Err(e) => format!("err {} | {}", e, w.digest()),
